@@ -22,7 +22,7 @@ def configs(ctx):
         return [("NdArray_views.cfg", None), ("NdArray_alias.cfg", None), ("NdArray_writes.cfg", None),
                 ("NdArray_sim.cfg", (20, 14))]
     return [("NdArray_views.cfg", None), ("NdArray_alias.cfg", None), ("NdArray_writes.cfg", None),
-            ("NdArray_views_t.cfg", None), ("NdArray_writes_t.cfg", None), ("NdArray_sim.cfg", (240, 16))]
+            ("NdArray_views_t.cfg", None), ("NdArray_views3.cfg", None), ("NdArray_writes_t.cfg", None), ("NdArray_sim.cfg", (240, 16))]
 
 
 def index_ops(ctx):
